@@ -122,6 +122,12 @@ impl World {
     /// Build a real InstanceBuilder tree from the flattened builder description; registers the
     /// node referents as spec refs nextRef.. in BFS (= sequence) order.
     fn build(&mut self, b: &Value) -> InstanceBuilder {
+        self.build_colliding(b, None)
+    }
+
+    /// `collide`: (1-based node index, referent already in the DOM) - that node is given the existing referent
+    /// through with_referent; it and the nodes after it will never exist and get no specification referent.
+    fn build_colliding(&mut self, b: &Value, collide: Option<(usize, Ref)>) -> InstanceBuilder {
         let nodes = b.as_array().unwrap();
         let mut builders: Vec<Option<InstanceBuilder>> = Vec::new();
         let mut new_refs = Vec::new();
@@ -160,11 +166,18 @@ impl World {
             if !ib.has_property("Value") || ib.has_property("NoSuchProperty") {
                 ib = ib.with_name("has_property-wrong");
             }
+            if let Some((k, existing)) = collide {
+                if builders.len() + 1 == k {
+                    ib = ib.with_referent(existing);
+                }
+            }
             new_refs.push(ib.referent());
             builders.push(Some(ib));
         }
-        for r in &new_refs {
-            self.register(*r);
+        for (i, r) in new_refs.iter().enumerate() {
+            if collide.map_or(true, |(k, _)| i + 1 < k) {
+                self.register(*r);
+            }
         }
         for (i, node) in nodes.iter().enumerate() {
             let mut ib = builders[i].take().unwrap();
@@ -393,6 +406,13 @@ impl World {
                     let r = self.doms[d.unwrap()].as_mut().unwrap().insert(p, b);
                     json!(self.spec_ref(r))
                 }
+                "insert_collide" => {
+                    let c = self.real(op["c"].as_i64().unwrap());
+                    let b = self.build_colliding(&op["b"], Some((op["k"].as_u64().unwrap() as usize, c)));
+                    let p = self.real(op["p"].as_i64().unwrap());
+                    let r = self.doms[d.unwrap()].as_mut().unwrap().insert(p, b);
+                    json!(self.spec_ref(r))
+                }
                 "destroy" => {
                     let r = self.real(op["r"].as_i64().unwrap());
                     self.doms[d.unwrap()].as_mut().unwrap().destroy(r);
@@ -596,7 +616,7 @@ pub fn run(max_ref: usize, num_slots: usize, input: &mut dyn BufRead, out: &mut 
             for ev in evs {
                 emit(out, &ep, ev);
             }
-            if panicked && op["op"] != "transfer_within_bad" {
+            if panicked && op["op"] != "transfer_within_bad" && op["op"] != "insert_collide" {
                 break;
             }
             if !w.still_a_forest() {
@@ -633,7 +653,25 @@ fn random_steps(w: &mut World, rng: &mut StdRng, steps: usize, uid_pool: i64, la
                 };
                 lab += 10;
                 let p = if live.is_empty() || rng.gen_range(0..10) == 0 { 0 } else { live[rng.gen_range(0..live.len())] };
-                json!({"op": "insert", "d": d + 1, "p": p, "b": b})
+                if !live.is_empty() && rng.gen_bool(0.1) {
+                    // a builder one of whose nodes was given (with_referent) the referent of an instance of this DOM:
+                    // its first or its last node
+                    let n = b.as_array().unwrap().len();
+                    let k = if rng.gen_bool(0.5) { 1 } else { n };
+                    // Ref properties must not name the nodes that will never exist
+                    let first_missing = w.next_ref() as i64 + k as i64 - 1;
+                    let mut b = b;
+                    for node in b.as_array_mut().unwrap() {
+                        for v in node["refp"].as_array_mut().unwrap() {
+                            if v.as_i64().unwrap() >= first_missing {
+                                *v = json!(-1);
+                            }
+                        }
+                    }
+                    json!({"op": "insert_collide", "d": d + 1, "p": p, "b": b, "k": k, "c": live[rng.gen_range(0..live.len())]})
+                } else {
+                    json!({"op": "insert", "d": d + 1, "p": p, "b": b})
+                }
             } else if choice < 40 && !nonroot.is_empty() {
                 json!({"op": "destroy", "d": d + 1, "r": nonroot[rng.gen_range(0..nonroot.len())]})
             } else if choice < 55 && !nonroot.is_empty() {
@@ -706,7 +744,7 @@ fn random_steps(w: &mut World, rng: &mut StdRng, steps: usize, uid_pool: i64, la
             for ev in evs {
                 emit(out, ep, ev);
             }
-            if panicked && op["op"] != "transfer_within_bad" {
+            if panicked && op["op"] != "transfer_within_bad" && op["op"] != "insert_collide" {
                 break;
             }
             if !w.still_a_forest() {
